@@ -1102,9 +1102,20 @@ func (e *Exec) describe(v Value) string {
 
 // isSyncCall reports whether a call is a synchronisation operation (a preemption point).
 func (e *Exec) isSyncCall(c *ssa.CallCommon) bool {
+	if c.IsInvoke() {
+		switch c.Method.Name() {
+		case "Close", "ReadFrom", "AcceptStream", "Accept", "Acquire", "ListenStream", "ListenPacket":
+			return true
+		}
+		return false
+	}
 	callee := c.StaticCallee()
 	if callee == nil {
 		return false
+	}
+	switch callee.Name() {
+	case "AcceptTCP", "verifDialTCP", "verifYield":
+		return true
 	}
 	if callee.Pkg != nil {
 		switch callee.Pkg.Pkg.Path() {
